@@ -130,6 +130,11 @@ class Graph:
             return list(torch.unbind(ins[0], dim=int(p["dim"])))
         if op == "split":
             return list(torch.split(ins[0], [int(s) for s in p["sizes"]], dim=int(p["dim"])))
+        if op == "take":
+            return [ins[0].reshape(-1)[torch.tensor(p["idx"], dtype=torch.int64)]]
+        if op == "where":
+            mask = torch.tensor(p["mask"], dtype=torch.bool).reshape(ins[0].shape)
+            return [torch.where(mask, ins[0], ins[1])]
         if op == "detach":
             return [ins[0].detach()]
         if op == "probe":
